@@ -359,9 +359,74 @@ def gen_default(r, p, t, inner=False):
         return ("{", list(items.values()))
     return None
 
-def gen_val(r, p, t, depth=0):
+def _d2b(x): return struct.unpack(">Q", struct.pack(">d", x))[0]
+def _b2d(b): return struct.unpack(">d", struct.pack(">Q", b))[0]
+def is_nan_bits(b): return (b >> 52) & 0x7ff == 0x7ff and b & ((1 << 52) - 1) != 0
+
+def go_eq(a, b):
+    """Go's == between a non-pointer field and its default: float comparison on doubles (NaN equals nothing,
+    -0.0 == 0.0), equality on everything else."""
+    if a[0] == "g" and b[0] == "g":
+        if is_nan_bits(a[1]) or is_nan_bits(b[1]): return False
+        return a[1] == b[1] or (a[1] & (2**63 - 1) == 0 and b[1] & (2**63 - 1) == 0)
+    return a == b
+
+NAN_BITS = [0x7ff8000000000000, 0x7ff8000000000001, 0xfff8000000000000, 0x7ff0000000000001, 0x7fffffffffffffff]
+DOUBLE_EDGES = [0, 0x8000000000000000, 0x7ff0000000000000, 0xfff0000000000000, 1, 0x8000000000000001,
+                0x7fefffffffffffff, 0xffefffffffffffff, 0x0010000000000000, 0x3ff0000000000001] + NAN_BITS
+
+def gen_near(r, p, t, dv):
+    """a value at the BOUNDARY of the declared default dv of a field of (scalar) type t: what a comparison with
+    the default that is not exact equality gets wrong; None for types without such values."""
     t = p.resolve(t)
     k = t.k
+    if dv is None or dv[0] not in "bngq": return None
+    x = dv[1]
+    if k == "b": return ("b", not x)
+    if k in "yhil":
+        bits = {"y": 8, "h": 16, "i": 32, "l": 64}[k]
+        v = r.pick([x + 1, x - 1, x, -x, x + 256, x ^ (1 << (bits - 1))])
+        return ("n", max(-2**(bits - 1), min(2**(bits - 1) - 1, v)))
+    if k == "E":
+        vals = p.enums[(t.file, t.name)]
+        if x in vals:
+            j = vals.index(x)
+            return ("n", vals[max(0, min(len(vals) - 1, j + r.pick([-1, 1])))])
+        return ("n", r.pick(vals))
+    if k == "d":
+        d = _b2d(x)
+        c = r.intn(12)
+        if c == 0: b = x + 1 if x & (2**63 - 1) != 0x7fefffffffffffff else x
+        elif c == 1: b = x - 1 if x & (2**63 - 1) != 0 else x | 1
+        elif c == 2: b = _d2b(d + 1e-12)
+        elif c == 3: b = _d2b(d - 1e-12)
+        elif c == 4: b = _d2b(d * (1 + 2.0**-52))
+        elif c == 5: b = _d2b(d * (1 - 2.0**-52))
+        elif c == 6: b = _d2b(d + 5e-10)
+        elif c == 7: b = x ^ 0x8000000000000000           # -default (for a 0.0 default: -0.0, which Go's != calls equal)
+        elif c == 8: b = r.pick(NAN_BITS)
+        elif c == 9: b = _d2b(d - 9.9e-10)
+        else: b = r.pick(DOUBLE_EDGES)
+        return ("g", b)
+    if k in "sx":
+        if not x: return ("q", r.pick([b"a", b" ", b"0", b"A"]))
+        c = r.intn(6)
+        if c == 0: return ("q", b"")
+        if c == 1: return ("q", x[:-1])
+        if c == 2: return ("q", x + r.pick([b"a", b" ", b"0"]))
+        if c == 3: return ("q", x.swapcase() if x.swapcase() != x else x + b"A")
+        if c == 4:
+            j = r.intn(len(x)); return ("q", x[:j] + bytes([x[j] ^ 1]) + x[j + 1:])
+        return ("q", x[1:])
+    return None
+
+def gen_val(r, p, t, depth=0, near=None):
+    t = p.resolve(t)
+    k = t.k
+    if near is not None and r.chance(45):
+        nv = gen_near(r, p, t, near)
+        if nv is not None: Stat("near-default-values"); return nv
+    if k == "d" and r.chance(25): return ("g", r.pick(DOUBLE_EDGES))
     if k == "b": return ("b", r.chance(50))
     if k in "yhil":
         bits = {"y": 8, "h": 16, "i": 32, "l": 64}[k]
@@ -418,8 +483,8 @@ def gen_struct(r, p, key, depth=0):
                     # IsSet<F>() is false — expected on the wire and in dumps as UNSET
                     fv[i] = cd; Stat("dflt:optional-value-equals-default")
                     continue
-                fv[i] = gen_val(r, p, t, depth)
-                if cd is not None: Stat("dflt:optional-value-differs" if fv[i] != cd else "dflt:optional-value-equals-default")
+                fv[i] = gen_val(r, p, t, depth, near=p.dflt(key, i))
+                if cd is not None: Stat("dflt:optional-value-differs" if not go_eq(fv[i], cd) else "dflt:optional-value-equals-default")
     return ("(", fv)
 
 def gen_set_val(r, p, key, i, t, depth=0):
@@ -427,11 +492,11 @@ def gen_set_val(r, p, key, i, t, depth=0):
     (A union field HOLDING its default cannot be carried by the emitted Go type: the union then has no
     field set — KNOWN_FINDINGS C02 go-union-default-field.)"""
     cd = p.cmp_dflt(key, i)
-    v = gen_val(r, p, t, depth)
+    v = gen_val(r, p, t, depth, near=p.dflt(key, i))
     for _ in range(20):
-        if cd is None or v != cd: break
-        v = gen_val(r, p, t, depth)
-    if cd is not None and v == cd: v = flip_scalar(v)
+        if cd is None or not go_eq(v, cd): break
+        v = gen_val(r, p, t, depth, near=p.dflt(key, i))
+    if cd is not None and go_eq(v, cd): v = flip_scalar(cd)
     return v
 
 def flip_scalar(v):
@@ -444,7 +509,7 @@ def flip_scalar(v):
 def is_unset_default(p, key, i, x):
     """field i of struct-like key, listed with value x[i]: does the emitted IsSet<F>() say "unset"?"""
     cd = p.cmp_dflt(key, i)
-    return cd is not None and x[i] == cd
+    return cd is not None and go_eq(x[i], cd)
 
 def omit_defaulted(r, p, t, v, prob=50):
     """(v_stream, v_expect): v_stream = v without some default-requiredness fields that have an IDL default
@@ -541,6 +606,7 @@ def canon_dump(p, t, v):
         key = (t.file, t.name)
         # a non-pointer optional field holding its default is UNSET (DESIGN §7 C02, value domain)
         return "(" + "".join("%d=%s" % (i, canon_dump(p, ft[i], x[i])) for i in sorted(x) if not is_unset_default(p, key, i, x)) + ")"
+    if k == "g" and is_nan_bits(x): return "g7ff8000000000001"      # dumps compare NaNs as "is NaN" (JSON carries no payload)
     return dump_val(v)
 
 def tree(p, t, v):
